@@ -14,3 +14,7 @@
 (assert (forall ((s String) (p String)) (! (=> (hasPrefix s p) (>= (str.len s) (str.len p))) :pattern ((hasPrefix s p)))))
 (assert (forall ((s String) (p String)) (! (=> (hasSuffix s p) (>= (str.len s) (str.len p))) :pattern ((hasSuffix s p)))))
 (assert (forall ((s String) (a Int) (b Int)) (! (=> (and (<= 0 a) (<= a b) (<= b (str.len s))) (= (str.len (strSlice s a b)) (- b a))) :pattern ((strSlice s a b)))))
+; a name whose lower-cased form ends in one of the three configuration suffixes contains a dot, and its last dot comes
+; after its last slash (the suffixes contain no slash); lower-casing moves neither dots nor slashes
+(assert (forall ((s String)) (! (=> (or (hasSuffix (toLower s) ".yaml") (hasSuffix (toLower s) ".yml") (hasSuffix (toLower s) ".json"))
+  (and (contains s ".") (< (lastIndex s "/") (lastIndex s ".")))) :pattern ((toLower s)))))
